@@ -170,6 +170,43 @@ def oracle(case, res, extra):
                         res.violation("failing-input", f"root.{rn} is not the sum over all leaves weighted by the repetition sums of repeated ancestors",
                                       {"qref": case.qref, "point": top}, got, exp)
                         return
+    # ---- history on bartiq's own Routine objects: compile a routine, DERIVE a variant from it (dataclasses.replace: one more leaf
+    # under the root that has an additive resource some children already have) and compile the variant — the new leaf counts
+    if case.seed % 3 == 0 and spec["repetition"] is None and cr.children:
+        import dataclasses
+
+        import bartiq
+        from ..real import compile_routine, schema, sympy_backend
+
+        own_root = {r["name"] for r in spec["resources"]}
+        # (names that every child carrying them types as additive: with mixed typing the clause presupposes nothing)
+        mixed = {rn for ch in cr.children.values() for rn, r in ch.resources.items() if r.type.value != "additive"}
+        cands = sorted({rn for ch in cr.children.values() for rn, r in ch.resources.items() if r.type.value == "additive"} - own_root - mixed)
+        if cands:
+            rn = rng.choice(cands)
+            try:
+                base = bartiq.Routine.from_qref(schema(case.qref), sympy_backend)
+                compile_routine(base)
+                leaf = bartiq.Routine.from_qref(schema({"name": "zz_extra", "resources": [{"name": rn, "type": "additive", "value": 5}]}), sympy_backend)
+                variant = dataclasses.replace(base, children={**base.children, "zz_extra": leaf}, children_order=(*base.children_order, "zz_extra"))
+                r_var = compile_routine(variant).routine
+            except Exception as e:
+                r_var = None
+                res.stats["derived_variant_raised_" + type(e).__name__] += 1
+            if r_var is not None and rn in r_var.resources and rn in cr.resources:
+                res.stats["derived_variants_checked"] += 1
+                top = {n: Fraction(rng.randint(2, 7)) for n in set(cr.input_params) | set(r_var.input_params)}
+                salt = rng.randint(0, 10**6)
+                try:
+                    old = E.sympy_ev(cr.resources[rn].value, dict(top), salt)
+                    new = E.sympy_ev(r_var.resources[rn].value, dict(top), salt)
+                    if not close(new, old + 5, True):
+                        res.violation("failing-input", f"after compiling a routine and deriving a variant with one more leaf (additive {rn} = 5), root.{rn} of the variant does not count the new leaf",
+                                      {"qref": case.qref, "history": f"compile(base); variant = replace(base, children + leaf zz_extra with {rn}=5); compile(variant)", "point": top},
+                                      {"compiled": str(r_var.resources[rn].value), "value": new}, old + 5)
+                        return
+                except (E.Undefined, OverflowError, KeyError):
+                    pass
     if depth_of(spec) >= 3 and feats:
         res.nontrivial.append((case.seed, tuple(sorted(feats))))
     for ft in feats:
